@@ -39,10 +39,20 @@ func (g *gen) block(n int, fnBody bool) {
 			fwdLabel, noLocals = "", false
 		}
 		// a backward label now and then
-		if g.r.Chance(6) {
+		if g.r.Chance(8) {
 			l := g.id("L")
+			spans := !noLocals && g.r.Chance(60)
+			if spans {
+				g.moveRun()
+			}
 			g.line("::%s::", l)
 			g.back = append(g.back, l)
+			if spans {
+				g.moveRun()
+				// make sure the label is a backward-jump target
+				g.line("cnt = cnt + 1")
+				g.line("if cnt < %d then goto %s end", 3+g.r.Intn(10), l)
+			}
 		}
 		last := i == n-1 && !endLabel
 		g.stmt(last, noLocals)
@@ -57,6 +67,29 @@ func (g *gen) block(n int, fnBody bool) {
 	g.fn.vars = g.fn.vars[:nv]
 	g.back = g.back[:nb]
 	g.fwd = g.fwd[:nfw]
+}
+
+// moveRun emits `local v1, v2[, v3] = l1, l2[, l3]` with locals on the right: a run of consecutive
+// MOVEs (MOVEN material). Placed right before and right after labels and loop heads so that runs
+// span the targets of backward jumps.
+func (g *gen) moveRun() {
+	var locs []string
+	for _, v := range g.fn.vars[g.fn.base:] {
+		locs = append(locs, v.name)
+	}
+	if len(locs) == 0 || g.fn.nloc > 150 {
+		return
+	}
+	n := 2 + g.r.Intn(2)
+	names, rhs := make([]string, n), make([]string, n)
+	for i := range names {
+		names[i] = g.id("m")
+		rhs[i] = locs[g.r.Intn(len(locs))]
+	}
+	g.line("local %s = %s", strings.Join(names, ", "), strings.Join(rhs, ", "))
+	for _, nm := range names {
+		g.declare(nm, kAny)
+	}
 }
 
 func (g *gen) body(n int) {
@@ -201,9 +234,16 @@ func (g *gen) stmt(last, noLocals bool) {
 			g.line("local %s = 0", c)
 			g.declare(c, kNum)
 			if g.r.Chance(30) {
+				spans := g.r.Chance(50)
+				if spans {
+					g.moveRun()
+				}
 				g.line("while true do")
 				g.loops++
 				g.ind++
+				if spans {
+					g.moveRun() // the loop head (target of the back edge) is in the middle of a MOVE run
+				}
 				g.line("%s = %s + 1", c, c)
 				g.line("if %s > %d then break end", c, 1+g.r.Intn(4))
 				g.ind--
@@ -219,9 +259,16 @@ func (g *gen) stmt(last, noLocals bool) {
 		g.loops--
 		g.line("end")
 	case 11: // repeat
+		spans := !noLocals && g.r.Chance(50)
+		if spans {
+			g.moveRun()
+		}
 		g.line("repeat")
 		g.loops++
 		g.ind++
+		if spans {
+			g.moveRun()
+		}
 		g.line("cnt = cnt + 1")
 		loc := ""
 		if g.r.Chance(50) {
